@@ -277,7 +277,7 @@ func extractWsTables(repo string) (string, error) {
 		return "", err
 	}
 	_ = fset
-	var sites, closes []string
+	var sites, closes, sections []string
 	for _, d := range f.Decls {
 		fd, ok := d.(*ast.FuncDecl)
 		if !ok || fd.Body == nil {
@@ -287,6 +287,23 @@ func extractWsTables(repo string) (string, error) {
 		w.block(fd.Body.List, false)
 		sites = append(sites, w.sites...)
 		closes = append(closes, w.closes...)
+		for _, r := range w.regions {
+			for _, c := range r {
+				if c == "delete(c.active)" || c == "c.active[id]=" {
+					sections = append(sections, fmt.Sprintf("(%s, [%s])", strconv.Quote(fd.Name.Name), quoteAll(r)))
+					break
+				}
+			}
+		}
+		for _, c := range w.free {
+			if c == "delete(c.active)" || c == "c.active[id]=" {
+				sections = append(sections, fmt.Sprintf("(%s, [%s])", strconv.Quote(fd.Name.Name), quoteAll([]string{"UNLOCKED " + c})))
+			}
+		}
+	}
+	arm, err := startArm(f)
+	if err != nil {
+		return "", err
 	}
 	if len(sites) == 0 {
 		return "", fmt.Errorf("websocket.go: no socket write found")
@@ -295,6 +312,10 @@ func extractWsTables(repo string) (string, error) {
 	b.WriteString("def writeSites : List (String × String × Bool) := [\n  " + strings.Join(sites, ",\n  ") + "]\n\n")
 	b.WriteString("/-- websocket.go: every `c.close(code, …)` call: (enclosing function, close code) -/\n")
 	b.WriteString("def closeSites : List (String × Nat) := [\n  " + strings.Join(closes, ",\n  ") + "]\n\n")
+	b.WriteString("/-- websocket.go: every critical section that changes `c.active`, with the socket writes it contains, in order -/\n")
+	b.WriteString("def activeSections : List (String × List String) := [\n  " + strings.Join(sections, ",\n  ") + "]\n\n")
+	b.WriteString("/-- websocket.go: the statements of `case startMessageType:` in run() -/\n")
+	b.WriteString("def startArm : List String := [" + quoteAll(arm) + "]\n\n")
 	b.WriteString("end GqlgenVerif.Gen.WsTables\n")
 	return b.String(), nil
 }
@@ -389,9 +410,20 @@ func checkExchanger(f *ast.File, p protoTables) error {
 
 // lockWalker walks statements in order, tracking whether c.mu is held (lexically).
 type lockWalker struct {
-	fn     string
-	sites  []string
-	closes []string
+	fn      string
+	sites   []string
+	closes  []string
+	regions [][]string // ordered notable calls of every c.mu critical section
+	cur     []string
+	free    []string // notable calls outside any critical section
+}
+
+func (w *lockWalker) notable(name string, locked bool) {
+	if locked {
+		w.cur = append(w.cur, name)
+	} else {
+		w.free = append(w.free, name)
+	}
 }
 
 func callName(c *ast.CallExpr) string {
@@ -421,6 +453,14 @@ func (w *lockWalker) exprs(n ast.Node, locked bool) {
 		case *ast.CallExpr:
 			name := callName(x)
 			last := name[strings.LastIndex(name, ".")+1:]
+			if name == "delete" && len(x.Args) == 2 {
+				if sel, ok := x.Args[0].(*ast.SelectorExpr); ok && identName(sel.X) == "c" && sel.Sel.Name == "active" {
+					w.notable("delete(c.active)", locked)
+				}
+			}
+			if name == "c.me.Send" {
+				w.notable("c.me.Send", locked)
+			}
 			switch {
 			case name == "c.me.Send", last == "WriteMessage", last == "WriteJSON", last == "WriteControl", last == "NextWriter", last == "WritePreparedMessage":
 				w.sites = append(w.sites, fmt.Sprintf("(%s, %s, %v)", strconv.Quote(w.fn), strconv.Quote(name), locked))
@@ -454,9 +494,12 @@ func (w *lockWalker) block(stmts []ast.Stmt, locked bool) bool {
 				switch callName(c) {
 				case "c.mu.Lock":
 					locked = true
+					w.cur = nil
 					continue
 				case "c.mu.Unlock":
 					locked = false
+					w.regions = append(w.regions, w.cur)
+					w.cur = nil
 					continue
 				}
 			}
@@ -515,11 +558,94 @@ func (w *lockWalker) block(stmts []ast.Stmt, locked bool) bool {
 				}
 				w.block(cc.Body, locked)
 			}
+		case *ast.AssignStmt:
+			for _, l := range x.Lhs {
+				if ix, ok := l.(*ast.IndexExpr); ok {
+					if sel, ok := ix.X.(*ast.SelectorExpr); ok && identName(sel.X) == "c" && sel.Sel.Name == "active" {
+						w.notable("c.active[id]=", locked)
+					}
+				}
+			}
+			w.exprs(s, locked)
 		default:
 			w.exprs(s, locked)
 		}
 	}
 	return locked
+}
+
+// startArm describes the `case startMessageType:` clause of run(): the duplicate-id test must read
+// c.active under the lock, refuse with a close and return, and only then call c.subscribe.
+func startArm(f *ast.File) ([]string, error) {
+	var out []string
+	found := false
+	for _, d := range f.Decls {
+		fd, ok := d.(*ast.FuncDecl)
+		if !ok || fd.Name.Name != "run" || fd.Body == nil {
+			continue
+		}
+		ast.Inspect(fd.Body, func(n ast.Node) bool {
+			cc, ok := n.(*ast.CaseClause)
+			if !ok || len(cc.List) != 1 || identName(cc.List[0]) != "startMessageType" {
+				return true
+			}
+			found = true
+			locked := false
+			for _, st := range cc.Body {
+				switch x := st.(type) {
+				case *ast.ExprStmt:
+					if c, ok := x.X.(*ast.CallExpr); ok {
+						switch callName(c) {
+						case "c.mu.Lock":
+							locked = true
+						case "c.mu.Unlock":
+							locked = false
+						case "c.subscribe":
+							out = append(out, "subscribe")
+						default:
+							out = append(out, "call:"+callName(c))
+						}
+					}
+				case *ast.AssignStmt:
+					reads := false
+					ast.Inspect(x, func(n ast.Node) bool {
+						if ix, ok := n.(*ast.IndexExpr); ok {
+							if sel, ok := ix.X.(*ast.SelectorExpr); ok && identName(sel.X) == "c" && sel.Sel.Name == "active" && callNameOfIndex(ix) == "m.id" {
+								reads = true
+							}
+						}
+						return true
+					})
+					if reads {
+						out = append(out, fmt.Sprintf("lookup c.active[m.id] locked=%v", locked))
+					}
+				case *ast.IfStmt:
+					lw := &lockWalker{fn: "run"}
+					lw.block(x.Body.List, locked)
+					code := ""
+					if len(lw.closes) == 1 {
+						code = lw.closes[0][strings.LastIndex(lw.closes[0], ",")+2 : len(lw.closes[0])-1]
+					}
+					cond := identName(x.Cond)
+					out = append(out, fmt.Sprintf("if %s: close %s return=%v", cond, code, endsInReturn(x.Body.List)))
+				default:
+					out = append(out, fmt.Sprintf("stmt:%T", st))
+				}
+			}
+			return false
+		})
+	}
+	if !found {
+		return nil, fmt.Errorf("websocket.go: run() has no `case startMessageType:`")
+	}
+	return out, nil
+}
+
+func callNameOfIndex(ix *ast.IndexExpr) string {
+	if sel, ok := ix.Index.(*ast.SelectorExpr); ok {
+		return identName(sel.X) + "." + sel.Sel.Name
+	}
+	return ""
 }
 
 func endsInReturn(stmts []ast.Stmt) bool {
